@@ -14,7 +14,7 @@ import (
 // C20 — a truncated or xref-damaged file still gives up every complete object.
 
 func init() {
-	addRun("C20", "documents written by the real Writer without object streams, on non-seekable and seekable sinks (versions 1.2-2.0, human-readable or compact, xref table or xref stream, random object trees, streams with short and long bodies, direct and indirect /Length; bodies free of line-initial markers, not ending in CR/LF and without EOL+endstream); random small documents with EVERY truncation offset 0..len and every single-byte and whole-range overwrite, plus documents with 1/9/10/11/25/40 streams of >= 1 KiB whose /Length is an indirect object behind the stream (mixed with short streams and plain objects; bodies with endobj, endstream, object headers in mid-line, and — delimited only by /Length — EOL+endstream or a trailing EOL) cut at every object boundary +-2 and sampled interior offsets (all offsets in thorough), ; documents with a filler object of 0..1100 bytes in front of small trailing objects, cut at every offset within 80 bytes of a multiple of 1024; stream bodies may end in LF/CR/CRLF; every offset up to 80 bytes behind each object is a cut; and every single-byte and whole-range overwrite of the xref table lines / xref stream data / startxref value; SequentialScan must succeed when >=1 object is complete, list every complete object at its true offset not broken, Read must give the written value, listed incomplete objects must be Broken, MakeReader+Get must give the written values after xref damage. A case is one (document, cut) or (document, overwrite) pair; non-trivial when at least one object is complete; distinct by the damaged bytes.", runC20)
+	addRun("C20", "documents written by the real Writer without object streams, on non-seekable and seekable sinks (versions 1.2-2.0, human-readable or compact, xref table or xref stream, random object trees, streams with short and long bodies, direct and indirect /Length; bodies free of line-initial markers); random small documents with EVERY truncation offset 0..len and every single-byte and whole-range overwrite, plus documents with 1/9/10/11/25/40 streams of >= 1 KiB whose /Length is an indirect object behind the stream (mixed with short streams and plain objects; bodies with endobj, endstream, object headers in mid-line, with lines that START with endstream (known finding scan-stream-broken-by-endstream-line-in-data when the length object is cut off), and ending in LF, CR LF, LF LF, CR CR LF — which must come back from EOL+endstream when the length object is cut off; delimited only by /Length are bodies ending in a bare CR and bodies in which endobj occurs behind a line starting with endstream) cut at every object boundary +-2 and sampled interior offsets (all offsets in thorough), ; documents with a filler object of 0..1100 bytes in front of small trailing objects, cut at every offset within 80 bytes of a multiple of 1024; every offset up to 80 bytes behind each object is a cut; documents with marker-like text (N G obj, a chopped N G obj, xref, trailer, startxref, %%EOF) in the MIDDLE of a line of a 3 kB stream body, its first byte at every file offset 960k-2..960k+2 (k=1..3; thorough: every offset of the first 2400 body bytes) where scanner.Find restarts its search, cut at every object end: nothing may be recorded at an offset that is not the start of a line (objects, also Broken ones, and the xref/trailer/startxref/%%EOF positions of the sections); and every single-byte and whole-range overwrite of the xref table lines / xref stream data / startxref value; SequentialScan must succeed when >=1 object is complete, list every complete object at its true offset not broken, Read must give the written value, listed incomplete objects must be Broken, MakeReader+Get must give the written values after xref damage. A case is one (document, cut) or (document, overwrite) pair; non-trivial when at least one object is complete; distinct by the damaged bytes.", runC20)
 	addReplay("C20", "scan", replayC20)
 }
 
@@ -71,15 +71,21 @@ type hisWritten struct {
 	end    int // offset just after "endobj"
 	val    string
 	isXRef bool
-	// needs >= 0: a stream whose body cannot be delimited without its /Length (it contains
-	// EOL+endstream or ends in an EOL) and whose /Length is the indirect object objs[needs]:
-	// the stream counts as completely written only together with that object
+	// needs >= 0: a stream whose body cannot be delimited without its /Length — it ends in a
+	// bare CR (with the Writer's LF in front of endstream the file shows the ONE end-of-line
+	// marker CR LF) or one of its lines starts with endstream and the word endobj occurs behind
+	// that line (in the extreme the text of an object end) — and whose /Length is the indirect
+	// object objs[needs]: the stream counts as completely written only together with that object
 	needs int
-	// nasty: the body contains EOL+endstream or ends in an EOL; when such a stream is cut off,
-	// what is left may look like a complete (shorter) stream object
+	// nasty: a line of the body starts with endstream and endobj occurs behind it; when such a
+	// stream is cut off, what is left may look like a complete (shorter) stream object
 	nasty bool
 	// trailEOL: a stream whose body ends in CR or LF
 	trailEOL bool
+	// innerEndstream: the body has a line that starts with endstream (and is not nasty)
+	innerEndstream bool
+	// data: offset of the first byte of the stream data (streams only)
+	data int
 	// lenObj >= 0: the index of the indirect /Length object of this stream in hisDoc.objs
 	lenObj int
 }
@@ -92,6 +98,10 @@ type hisDoc struct {
 	sxLo    int // the digits after startxref
 	sxHi    int
 }
+
+// marker-like texts for the middle of a line of stream data (m-documents); object 1 is the page
+// tree node of every document
+var hisMidTokens = []string{"1 0 obj 999 endobj", "123 0 obj", "xref", "trailer", "startxref", "%%EOF"}
 
 var hisMarkerWords = []string{"obj", "xref", "trailer", "%%EOF", "endstream"}
 
@@ -187,9 +197,12 @@ func hisFillBody(r *Rand, n int) []byte {
 
 // hisEmbed overwrites part of a clean body with keyword text.  Level 1: keywords that are
 // harmless for a scanner which respects line starts and EOL+endstream ("endobj", "endstream"
-// and object headers in the middle of a line).  Level 2 ("nasty"): an EOL directly followed by
-// "endstream" inside the body, or a body ending in an EOL — such a body can only be delimited
-// by its /Length.
+// and object headers in the middle of a line).  Level 2: a line of the body starts with
+// "endstream" (and the word "endobj" does not occur behind it): the real end of the stream is
+// the EOL + endstream that is followed by endobj — the recovery stops at the first one (known
+// finding scan-stream-broken-by-endstream-line-in-data).  Level 3 ("nasty"): a line starts with
+// "endstream" and "endobj" follows somewhere behind it, e.g. the text of an object end — such a
+// body can only be delimited by its /Length.
 func hisEmbed(r *Rand, b []byte, level int) []byte {
 	put := func(text string) {
 		if len(b) < len(text)+4 {
@@ -223,28 +236,45 @@ func hisEmbed(r *Rand, b []byte, level int) []byte {
 		}
 	}
 	sanitize()
-	if level >= 2 {
-		defer sanitize()
-		switch r.Intn(4) {
-		case 0:
-			put("\nendstream x ")
-		case 1:
-			put("\r\nendstream\n903 0 R ")
-		case 2:
-			put("\rendstream\rendobjx")
-		default:
-			put("\nendstream y")
-			b[len(b)-1] = Pick(r, []byte{'\n', '\r'})
+	if level == 2 {
+		for k := 1 + r.Intn(2); k > 0; k-- {
+			put(Pick(r, []string{"\nendstream x ", "\r\nendstream\n903 0 R ", "\nendstream y", "\rendstream\rendob j", "\nendstream\n", "\nendstreamendobj "}))
 		}
+		sanitize()
+		for hisHasObjectEnd(b) {
+			// keep the body inside the quantifier: no endobj behind the first endstream line
+			i := bytes.LastIndex(b, []byte("endobj"))
+			b[i+5] = 'J'
+		}
+	}
+	if level >= 3 {
+		put(Pick(r, []string{"\rendstream\rendobjx", "\nendstream\nendobj\n", "\r\nendstream endobj ", "\nendstream\x00\t\n endobj"}))
+		sanitize()
 	}
 	return b
 }
 
+// hisHasObjectEnd: a line of b starts with endstream and the word endobj occurs behind it (in the
+// extreme the text of an object end, EOL endstream EOL endobj): without /Length such a body may
+// read as a complete, shorter stream
+func hisHasObjectEnd(b []byte) bool {
+	i := bytes.Index(b, []byte("\nendstream"))
+	if j := bytes.Index(b, []byte("\rendstream")); j >= 0 && (i < 0 || j < i) {
+		i = j
+	}
+	return i >= 0 && bytes.Contains(b[i:], []byte("endobj"))
+}
+
+func hisHasEndstreamLine(b []byte) bool {
+	return bytes.Contains(b, []byte("\nendstream")) || bytes.Contains(b, []byte("\rendstream"))
+}
+
+// hisBodyNeedsLength: the bodies outside the property's quantifier when /Length is lost
 func hisBodyNeedsLength(b []byte) bool {
-	if len(b) > 0 && (b[len(b)-1] == '\n' || b[len(b)-1] == '\r') {
+	if len(b) > 0 && b[len(b)-1] == '\r' {
 		return true
 	}
-	return bytes.Contains(b, []byte("\nendstream")) || bytes.Contains(b, []byte("\rendstream"))
+	return hisHasObjectEnd(b)
 }
 
 // document kinds: "r0"/"r1" random documents (as before, larger/smaller); "i<K>" K streams of
@@ -274,16 +304,47 @@ func hisWriteDoc(r *Rand, kind string) (doc *hisDoc, err error) {
 	if strings.HasPrefix(kind, "p") {
 		pad, _ = strconv.Atoi(kind[1:])
 	}
+	// "m<T>_<A>": the marker-like text hisMidTokens[T] in the middle of a line of a long stream
+	// body, its first byte at the absolute file offset A ("m<T>_<A>@<o>" = at offset o of the body:
+	// the first pass, which finds out where the body starts)
+	mTok, mAbs, mOff := -1, 0, -1
+	if strings.HasPrefix(kind, "m") {
+		spec := kind[1:]
+		if i := strings.Index(spec, "@"); i >= 0 {
+			mOff, _ = strconv.Atoi(spec[i+1:])
+			spec = spec[:i]
+		}
+		fmt.Sscanf(spec, "%d_%d", &mTok, &mAbs)
+		if mOff < 0 {
+			probe, err := hisWriteDoc(&Rand{s: r.s}, kind+"@40")
+			if err != nil {
+				return nil, err
+			}
+			at := -1
+			for _, o := range probe.objs {
+				if o.data > 0 && o.end-o.data > 2000 {
+					at = o.data
+				}
+			}
+			if at < 0 || mAbs-at < 2 {
+				return nil, fmt.Errorf("his: m-document without room for offset %d (body at %d)", mAbs, at)
+			}
+			return hisWriteDoc(r, fmt.Sprintf("%s@%d", kind, mAbs-at))
+		}
+	}
 	small := kind == "r1" || kind == "1"
 	versions := []pdf.Version{pdf.V1_2, pdf.V1_4, pdf.V1_7, pdf.V2_0, pdf.V1_5}
 	v := Pick(r, versions)
 	opt := &pdf.WriterOptions{HumanReadable: r.Bool()}
-	if nLong >= 25 || pad >= 0 {
+	if nLong >= 25 || pad >= 0 || mTok >= 0 {
 		opt.HumanReadable = false
 	}
 	if v >= pdf.V2_0 || r.P(1, 3) {
 		// fixed by the seed (the Writer would draw it from crypto/rand otherwise)
 		opt.ID = [][]byte{r.Bytes(16), r.Bytes(16)}
+	}
+	if mTok >= 0 {
+		seekable = r.Bool()
 	}
 	var sink hisDocSink
 	if seekable {
@@ -324,8 +385,10 @@ func hisWriteDoc(r *Rand, kind string) (doc *hisDoc, err error) {
 			panic("his: stream terminator not found")
 		}
 		end := before + t + len("\nendstream\nendobj")
-		rec := hisWritten{ref: ref, start: before, end: end, val: val, needs: -1, lenObj: -1, nasty: hisBodyNeedsLength(body),
-			trailEOL: len(body) > 0 && (body[len(body)-1] == '\n' || body[len(body)-1] == '\r')}
+		rec := hisWritten{ref: ref, start: before, end: end, val: val, needs: -1, lenObj: -1, nasty: hisHasObjectEnd(body),
+			trailEOL:       len(body) > 0 && (body[len(body)-1] == '\n' || body[len(body)-1] == '\r'),
+			innerEndstream: hisHasEndstreamLine(body) && !hisHasObjectEnd(body),
+			data:           before + bytes.Index(data[before:], []byte("stream\n")) + 7}
 		doc.objs = append(doc.objs, rec)
 		// an indirect length object follows directly
 		rest := data[end:]
@@ -413,7 +476,44 @@ func hisWriteDoc(r *Rand, kind string) (doc *hisDoc, err error) {
 	addPlain(pagesRef, before, wireNorm(pages))
 	w.GetMeta().Catalog.Pages = pagesRef
 
-	if pad >= 0 {
+	if mTok >= 0 {
+		for k := r.Intn(3); k > 0; k-- {
+			if err := putPlain(100 + k); err != nil {
+				return nil, err
+			}
+		}
+		// lines of 20..200 printable bytes; the token replaces bytes in the middle of a line
+		body := make([]byte, 3100+r.Intn(200))
+		col := 0
+		for i := range body {
+			body[i] = byte(0x21 + r.Intn(0x5e))
+			col++
+			if col > 20 && r.P(1, 60) || col >= 200 {
+				body[i] = Pick(r, []byte{'\n', '\n', '\r'})
+				col = 0
+			}
+		}
+		body = hisCleanBytes(body)
+		for i := 0; i+1 < len(body); i++ { // no line-initial digit
+			if (body[i] == '\n' || body[i] == '\r') && body[i+1] >= '0' && body[i+1] <= '9' {
+				body[i+1] = 'd'
+			}
+		}
+		tok := hisMidTokens[mTok]
+		if mOff < 2 || mOff+len(tok)+2 > len(body) {
+			return nil, fmt.Errorf("his: m-document: offset %d outside the body", mOff)
+		}
+		copy(body[mOff-2:], "x "+tok+" ")
+		body[len(body)-1] = '.'
+		if err := putStream(0, body); err != nil {
+			return nil, err
+		}
+		for k := r.Intn(3); k > 0; k-- {
+			if err := putPlain(200 + k); err != nil {
+				return nil, err
+			}
+		}
+	} else if pad >= 0 {
 		// a filler object of `pad` bytes sweeps the boundaries of the small objects behind it
 		// across the 1024-byte windows of the scanner
 		ref := w.Alloc()
@@ -472,12 +572,17 @@ func hisWriteDoc(r *Rand, kind string) (doc *hisDoc, err error) {
 				}
 			}
 			body := hisFillBody(r, 1024+r.Intn(40))
-			level := r.Intn(3)
+			level := r.Intn(4)
 			if i == nLong-1 || (nLong >= 10 && i == 9) || (nLong >= 11 && i == 10) {
-				level = 2
+				level = 2 + r.Intn(2)
 			}
 			if level > 0 {
 				body = hisEmbed(r, body, level)
+			}
+			// the exact bytes must come back, with /Length or recovered from EOL+endstream:
+			// bodies ending in LF, CR LF, LF LF (and, outside the quantifier without /Length, CR)
+			if r.P(1, 2) {
+				body = append(body, Pick(r, []string{"\n", "\n", "\r\n", "\n\n", "\r\r\n", "x\n", "\r"})...)
 			}
 			if err := putStream(i, body); err != nil {
 				return nil, err
@@ -668,6 +773,9 @@ func hisScanOracle2(doc *hisDoc, data []byte, intact int, skipXRefObj bool, tryR
 			return line, "scan-wrong-reference", fmt.Sprintf("object at %d listed as %v, written as %v", o.start, fo.Reference, o.ref), ""
 		}
 		if fo.Broken {
+			if o.innerEndstream {
+				return line, "scan-stream-broken-by-endstream-line-in-data", fmt.Sprintf("complete stream %v at %d (endobj ends at %d <= %d) is marked broken: a line of its data starts with endstream, its /Length is not available, and the recovery stops at the first EOL+endstream although that one is not followed by endobj (D-C20-3, known finding)", o.ref, o.start, o.end, intact), ""
+			}
 			if o.lenObj >= 0 {
 				if l := doc.objs[o.lenObj]; l.start < intact && l.end > intact {
 					// the header of the length object is there, its value or endobj is cut off
@@ -682,7 +790,36 @@ func hisScanOracle2(doc *hisDoc, data []byte, intact int, skipXRefObj bool, tryR
 				return line, "scan-read-fails", fmt.Sprintf("Read(%v) fails: %v", o.ref, rerr), ""
 			}
 			if got != o.val {
+				if o.trailEOL && len(got) < len(o.val) && len(got)+4 >= len(o.val) && strings.HasPrefix(o.val, got) {
+					return line, "scan-recovered-stream-loses-trailing-eol", fmt.Sprintf("Read(%v): the stream data comes back %d byte(s) short: the data ends in an EOL of its own, the EOL marker in front of endstream is a second one, and both are stripped (…%s read, …%s written)", o.ref, (len(o.val)-len(got))/2, got[max(0, len(got)-12):], o.val[max(0, len(o.val)-12):]), ""
+				}
+				if o.innerEndstream && strings.HasPrefix(o.val, got) {
+					return line, "scan-stream-broken-by-endstream-line-in-data", fmt.Sprintf("Read(%v): the stream data is cut at a line of the data that starts with endstream (%d of %d bytes)", o.ref, len(got), len(o.val)), ""
+				}
 				return line, "scan-read-differs", fmt.Sprintf("Read(%v) = %s, written %s", o.ref, truncate(got), truncate(o.val)), ""
+			}
+		}
+	}
+	// the scan's markers are line-initial by definition (sequential.go: eolPat): nothing may be
+	// recorded at an offset whose predecessor is not an end-of-line byte
+	lineInitial := func(at int) bool {
+		return at <= 0 || at > len(data) || data[at-1] == '\n' || data[at-1] == '\r'
+	}
+	ats := make([]int, 0, len(listed))
+	for at := range listed {
+		ats = append(ats, at)
+	}
+	sort.Ints(ats)
+	for _, at := range ats {
+		if !lineInitial(at) {
+			fo := listed[at]
+			return line, "scan-midline-marker-at-window-start", fmt.Sprintf("object %v (broken=%v) is listed at offset %d, in the middle of the line %q: the pattern's ^ matched where a search window of scanner.Find starts", fo.Reference, fo.Broken, at, hisLineAround(data, at)), ""
+		}
+	}
+	for si, sec := range fi.Sections {
+		for mi, at := range []int64{sec.XRefPos, sec.TrailerPos, sec.StartXRefPos, sec.EOFPos} {
+			if at > 0 && !lineInitial(int(at)) {
+				return line, "scan-midline-marker-at-window-start", fmt.Sprintf("section %d: %s is recorded at offset %d, in the middle of the line %q: the pattern's ^ matched where a search window of scanner.Find starts", si, []string{"xref", "trailer", "startxref", "%%EOF"}[mi], at, hisLineAround(data, int(at))), ""
 			}
 		}
 	}
@@ -722,6 +859,17 @@ func hisScanOracle2(doc *hisDoc, data []byte, intact int, skipXRefObj bool, tryR
 		}
 	}
 	return line, "", "", readerNote
+}
+
+func hisLineAround(data []byte, at int) string {
+	lo, hi := at, at
+	for lo > 0 && at-lo < 24 && data[lo-1] != '\n' && data[lo-1] != '\r' {
+		lo--
+	}
+	for hi < len(data) && hi-at < 30 && data[hi] != '\n' && data[hi] != '\r' {
+		hi++
+	}
+	return string(data[lo:hi])
 }
 
 func hisMakeReader(fi *pdf.FileInfo) (rd *pdf.Reader, err error) {
@@ -822,6 +970,15 @@ func hisCutSet(r *Rand, doc *hisDoc, mode string, nSample int) []int {
 			cuts = append(cuts, t)
 		}
 	}
+	if mode == "ends" {
+		for _, o := range doc.objs {
+			add(o.end)
+		}
+		add(n)
+		add(n - 1)
+		sort.Ints(cuts)
+		return cuts
+	}
 	if mode == "bands" {
 		// every prefix length within 80 bytes of a multiple of the scanner's buffer size, and the
 		// last bytes of the file
@@ -870,11 +1027,19 @@ func runC20(c *Ctx) {
 	// runDoc: one document, its cuts and its xref overwrites
 	runDoc := func(kind string, seed uint64, cutMode string, nSample int, owStep int, emitCuts int) {
 		doc, err := hisWriteDoc(&Rand{s: seed}, kind)
+		if err != nil && strings.HasPrefix(err.Error(), "his: m-document") {
+			c.Stat("m_document_offset_outside_body")
+			return
+		}
 		if err != nil {
 			c.Violate("scan", "writer-fails", "the Writer fails: "+err.Error(), fmt.Sprintf("%d %s cut 0", seed, kind))
 			return
 		}
-		c.Stat("doc_kind_" + kind)
+		if strings.HasPrefix(kind, "m") || strings.HasPrefix(kind, "p") {
+			c.Stat("doc_kind_" + kind[:1])
+		} else {
+			c.Stat("doc_kind_" + kind)
+		}
 		c.Stat(fmt.Sprintf("doc_objects_%03d", len(doc.objs)))
 		c.StatN("doc_bytes", len(doc.bytes))
 		nNeeds := 0
@@ -1024,6 +1189,32 @@ func runC20(c *Ctx) {
 			emit = 8
 		}
 		runDoc(fmt.Sprintf("p%d", n), r.U64(), "bands", 0, 0, emit)
+	}
+	// 4. marker-like text in the MIDDLE of a line of stream data, its first byte at every file
+	// offset 960k-2 .. 960k+2 (k = 1..3): scanner.Find restarts its search 64 bytes before the
+	// end of a 1024-byte window that held no match, i.e. at the offsets 960, 1920, ... of a
+	// marker-free region; nothing in the middle of a line may be recorded.  Thorough: every
+	// offset of the first 2400 bytes of the body for the two object tokens.
+	for ti := range hisMidTokens {
+		for k := 1; k <= 3; k++ {
+			for d := -2; d <= 2; d++ {
+				emit := 0
+				if d == 0 && k <= 2 {
+					emit = 2
+				}
+				runDoc(fmt.Sprintf("m%d_%d", ti, 960*k+d), r.U64(), "ends", 0, 0, emit)
+				c.Stat("midline_marker_documents")
+			}
+		}
+	}
+	if c.Thorough {
+		for ti := 0; ti < 2; ti++ {
+			seed := r.U64()
+			for a := 500; a < 2900; a++ {
+				runDoc(fmt.Sprintf("m%d_%d", ti, a), seed, "ends", 0, 0, 0)
+				c.Stat("midline_marker_documents")
+			}
+		}
 	}
 	c.rep.Exhaustive = true
 
